@@ -234,6 +234,43 @@ prop(
     thorough=dict(checks=2500, shards=16),
 )
 
+prop(
+    "C16",
+    title="Calls share no hidden state",
+    technique="stateful property-based testing (rapid): generated histories of expansion/resolution calls over a mutable in-memory document store whose documents change content (same URLs) between calls; invariant after every call = model oracle on the store as it is now + loader traffic equals the model's reachable documents + built-in meta-schemas still equal to the embedded assets; differential re-execution of sampled calls in a fresh worker process",
+    rule="2-3 variants of a multi-document graph over the same URL pool (same root URL, hence the same pseudo root), every content label prefixed with its variant so stale content is visible; histories of 3-13 steps drawn from: switch the store to another variant, ExpandSpec of variant v's root (AbsoluteCircularRef drawn), a base-location single-element expansion, a resolution into the built-in Swagger 2.0 / draft-4 meta-schemas; none of the calls gets a cache; in 15% of the histories every acyclic call is re-run in a fresh process. Non-trivial = the documents changed between two calls that read them; distinct by hash of the history",
+    design_ref="DESIGN.md §4 C16",
+    level_text="exploration over histories: a result is compared with what the documents hold at the time of the call (bisimulation with uniquely labelled content), so anything learnt from an earlier call and wrongly reused shows up as a label of the wrong variant; the set of URLs requested during the call must equal the documents reachable from its arguments (nothing served from an earlier call); the meta-schemas are resolved with a loader that refuses everything and compared with freshly decoded embedded assets",
+    level_note="the root document passed in memory is also what the loader serves under the root URL during that call; histories are bounded (<= 13 steps) - hidden state that needs a longer history to manifest is out of reach",
+    quick=dict(checks=150, shards=4),
+    thorough=dict(checks=1200, shards=16),
+)
+
+prop(
+    "C17",
+    title="Concurrent use on independent data is race-free with sequential answers",
+    technique="property-based testing (rapid) of generated concurrency plans executed under the Go race detector (binary built with -race, GORACE=halt_on_error=1): N goroutines x op lists over ExpandSpec on own decodes, ExpandSchema with own / no / one shared cache, ExpandSchema and Resolve against a shared read-only typed root, json.Marshal and pointer lookups on a shared document; every concurrent result compared with the same op run alone; 12% of the plans run in a fresh process so that lazily initialised package state is first used concurrently",
+    rule="plans: 2/4/8/16 goroutines, 1-4 ops each, GOMAXPROCS in {1,2,4,16}, 0-3 runtime.Gosched() calls before each op, over a generated multi-document graph (<=3 documents). Non-trivial = at least two ops touch shared data (the shared cache, the shared typed root or document); distinct by hash of the plan",
+    design_ref="DESIGN.md §4 C17",
+    level_text="exploration of op mixes, not of interleavings: the race detector is sound for the happens-before relation of the executed run, so what the generator varies and the evidence reports is which operations run against which shared data; results must equal the sequential ones (bytes when the element is acyclic and the call succeeds, error-ness always); a plan that does not finish within 90 s is reported as a deadlock",
+    level_note="the harness cannot own the Go scheduler: a race that needs an interleaving which never occurs in the executed runs is missed, and a schedule-dependent failure is not shrunk (the plan in flight when the detector stops the process is the replay; the replay command re-runs it up to 20 times)",
+    race=True,
+    quick=dict(checks=40, shards=4, timeout=600),
+    thorough=dict(checks=200, shards=16),
+)
+
+prop(
+    "C19",
+    title="Round trip and expansion keep a valid Swagger 2.0 document valid",
+    technique="property-based testing (rapid) with an independent validity oracle: generated schema-valid Swagger 2.0 documents (checked valid before use by python jsonschema's Draft4Validator against the schema shipped with the package, long-lived subprocess) are decoded+encoded and expanded, and the results validated again; an invalid result is explained differentially against known finding K5 or reported",
+    rule="whole Swagger documents from the validity-preserving variant of the vocabulary generator: every security flavour, every parameter location, simple- and body-schema forms, responses with headers/examples, tags, external docs, extensions, hostile names, local well-founded $refs (#/definitions, #/parameters, #/responses) wired to existing names; documents the validator rejects are generator bugs: counted, skipped, and the run fails its health check above 15% rejection. Required strings are drawn empty in 1.2% of the positions of 10% of the documents (K5 steering); the repository's own schema-valid fixtures run through the same oracle. Non-trivial = document has security schemes, parameters and responses; distinct by hash of the document",
+    design_ref="DESIGN.md §4 C19",
+    level_text="exploration with an independent oracle: validate(encode(decode(d))) and validate(encode(ExpandSpec(decode(d)))) for validator-approved d; an invalid result is tolerated only if re-inserting exactly the dropped empty required strings makes it valid again (known finding K5), judged by the validator itself",
+    level_note="trusts python-jsonschema 4.x's Draft-4 implementation (format assertions off) and the meta-schema files under /repo/schemas; documents with an unfounded parameter/response/path item are exempt from the expansion half, as the statement says",
+    quick=dict(checks=300, shards=4),
+    thorough=dict(checks=2500, shards=16),
+)
+
 
 def manifest():
     allids = []
